@@ -311,6 +311,10 @@ class Scen:
             k = hk.sslib_key("ed25519", ks[1])
             if ks[2] == "signer":
                 return {"signer": k.signer}, {"signer": k.pub}, k.pub
+            if ks[2] == "both":
+                # a signer AND a (different) legacy signing key in one call: the signer takes precedence everywhere
+                lk2 = legacy_key(hk.sslib_key("ed25519", ks[3]))
+                return {"signer": k.signer, "signing_key": lk2}, {"signer": k.pub, "signing_key": lk2}, k.pub
             lk = legacy_key(k)
             return {"signing_key": lk}, {"signing_key": lk}, k.pub
         if ks[1] == "default":
@@ -749,7 +753,11 @@ def gen_scenario(rng, gpg=False, fault_share=0.35, fork_share=0.15):
                               "sig_nibble", "empty", "reformatted"])
             lane.append({"ev": "tamper", "step": step, "key": key, "how": how, "seed": rng.randrange(1 << 30),
                          "other": rng.choice([i for i in range(5) if key[0] != "ed" or i != key[1]])})
-        stop = {"ev": "stop", "step": step, "key": key, "paths": rng.choice([["src"], ["."], ["out.bin", "src"]])}
+        stop_key = key
+        if key[0] == "ed" and key[2] == "signer" and rng.random() < 0.2:
+            # stop gets a signer AND a different legacy signing key: the signer decides name, verification and signature
+            stop_key = ["ed", key[1], "both", rng.choice([i for i in range(5) if i != key[1]])]
+        stop = {"ev": "stop", "step": step, "key": stop_key, "paths": rng.choice([["src"], ["."], ["out.bin", "src"]])}
         stop.update(gen_stop_opts(rng))
         if r >= 0.4 and rng.random() < fault_share:
             stop["faults"] = all_faults(rng, fork_share)
